@@ -13,6 +13,7 @@ impl<'a, S: VRead> VRead for VBufReader<'a, S> {
     closed spec fn data(&self) -> Seq<u8> { self.inner.data() }
     closed spec fn pos(&self) -> nat { self.lpos@ }
     closed spec fn wf(&self) -> bool { self.inner.wf() }
+    closed spec fn nerr(&self) -> nat { self.inner.nerr() }
     #[verifier::external_body]
     fn read(&mut self, buf: &mut [u8]) -> (r: std::io::Result<usize>) { unimplemented!() }
 }
@@ -83,6 +84,7 @@ impl<'a> VRead for VSliceReader<'a> {
     closed spec fn data(&self) -> Seq<u8> { self.s@ }
     closed spec fn pos(&self) -> nat { self.p@ }
     closed spec fn wf(&self) -> bool { self.p@ <= self.s@.len() }
+    closed spec fn nerr(&self) -> nat { 0 }
     #[verifier::external_body]
     fn read(&mut self, buf: &mut [u8]) -> (r: std::io::Result<usize>) { unimplemented!() }
 }
